@@ -411,6 +411,41 @@ func (e *Env) exec(op Op, ack *bool) error {
 			done <- err
 		}()
 		return nil
+	case "cwhold": // a transaction that is in flight (write lock held) for A ms, then commits
+		if e.bgDone != nil {
+			return nil
+		}
+		if e.App == nil {
+			if err := e.openApp(); err != nil {
+				return err
+			}
+		}
+		done := make(chan error, 1)
+		started := make(chan struct{})
+		e.bgDone = done
+		hold, sz := op.A, op.B
+		go func() {
+			first := true
+			done <- e.appTxn(func(tx *sql.Tx, k int) error {
+				for j := 0; j < 3; j++ {
+					if _, err := tx.Exec("INSERT INTO t0 (a, v) VALUES (?, ?)", k*1000+j, blob(k, j, sz)); err != nil {
+						if first {
+							close(started)
+							first = false
+						}
+						return err
+					}
+				}
+				if first {
+					close(started)
+					first = false
+				}
+				time.Sleep(time.Duration(hold) * time.Millisecond)
+				return nil
+			})
+		}()
+		<-started
+		return nil
 	case "cwait":
 		if e.bgDone == nil {
 			return nil
